@@ -81,7 +81,7 @@ def vectors(ctx):
             add(f, 1, tag="selfsim", cs=rng.choice([0, 1, 2 + df]))
     # (5d) frames whose leading k bytes are a complete codeword (remainder zero part-way through the division), followed by
     # zero bytes and / or more data: concatenations of valid frames, a valid short frame padded to the long length, ...
-    for k in range(ctx.pick(300, 20000)):
+    for k in range(ctx.pick(1500, 40000)):
         n = 14 if k % 4 else 7
         cut = rng.randrange(4, n)
         head = gen.with_parity([rng.randrange(256) for _ in range(cut - 3)])
